@@ -130,11 +130,15 @@ type Obs struct {
 	Trigs  []int     `json:"trigs"`
 	Early  int       `json:"early"`
 	Pend   int       `json:"pend"`
+	Launch []int     `json:"launch"`
 	Note   string    `json:"note,omitempty"`
 }
 
 type Result struct {
 	Obs  []Obs  `json:"obs"`
+	// oracle values read off the run: index of a create/finish request -> 5 when the DEPLOY transition
+	// timed out although the specification lets every task report in (lost status notification)
+	Fail map[int]int `json:"fail,omitempty"`
 	Err  string `json:"err,omitempty"`
 	Hung bool   `json:"hung,omitempty"`
 }
@@ -212,13 +216,18 @@ func obsTerm(o Obs) string {
 		}
 		ts[i] = fmt.Sprintf("(mkTask %d %s %s %d)", t.Id, ow, gen.Bool(t.Active), t.State)
 	}
-	return fmt.Sprintf("(mkObs %d %s %s %s %s %s %s %s %d %d)", o.Rc, gen.List(es), gen.List(ts), nl(o.ADets),
-		nl(o.Kills), nl(o.Cmds), nl(o.Calls), nl(o.Trigs), o.Early, o.Pend)
+	return fmt.Sprintf("(mkObs %d %s %s %s %s %s %s %s %d %d %s)", o.Rc, gen.List(es), gen.List(ts), nl(o.ADets),
+		nl(o.Kills), nl(o.Cmds), nl(o.Calls), nl(o.Trigs), o.Early, o.Pend, nl(o.Launch))
 }
 
 func caseTerm(h History, r Result) string {
 	ops := make([]string, len(h.Ops))
 	for i, o := range h.Ops {
+		if f, ok := r.Fail[i]; ok && o.Spec != nil {
+			sp := *o.Spec
+			sp.Fail = f
+			o.Spec = &sp
+		}
 		ops[i] = opTerm(o)
 	}
 	obs := make([]string, len(r.Obs))
@@ -375,7 +384,8 @@ type child struct {
 	envIdx   map[string]int     // environment id -> env index
 	envPtr   map[int]*environment.Environment
 	byTid    map[string]*launched
-	failCmd  map[string]bool // class + "/" + event -> refuse
+	failCmd  map[string]bool // class + "/" + event -> refuse (transient: one request)
+	cfgErr   map[string]bool // class -> refuses CONFIGURE while its environment is being created
 	early    int
 	seenCall int
 	seenEv   int
@@ -385,6 +395,20 @@ type child struct {
 type createRes struct {
 	id  string
 	err error
+}
+
+// lostDeploy: the creation failed with the DEPLOY timeout although nothing in its specification
+// makes the deployment fail
+func lostDeploy(s *Spec, err error) bool {
+	if err == nil || s.Fail != 0 || !strings.Contains(err.Error(), "workflow deployment timed out") {
+		return false
+	}
+	for _, r := range s.Roles {
+		if r.Launch != 0 {
+			return false
+		}
+	}
+	return true
 }
 
 func stateCode(s string) int {
@@ -548,6 +572,7 @@ func (c *child) checkEarly(e int) {
 
 func (c *child) projection() (envs []EnvObs, roster []TaskObs, adets []int) {
 	ge, _ := c.s.Rpc.GetEnvironments(c.ctx, &pb.GetEnvironmentsRequest{ShowAll: true})
+	live := c.s.LiveTasks()
 	c.mu.Lock()
 	defer c.mu.Unlock()
 	if ge != nil {
@@ -586,7 +611,13 @@ func (c *child) projection() (envs []EnvObs, roster []TaskObs, adets []int) {
 				owner = 99
 			}
 		}
-		roster = append(roster, TaskObs{Id: key, Owner: owner, Active: t.Status == "ACTIVE", State: stateCode(t.State)})
+		// the state of a live task is read from the (simulated) device: the roster's copy is written by
+		// one goroutine per reply, so an older reply can overwrite a newer one
+		state := stateCode(t.State)
+		if lt, ok := live[t.TaskId]; ok && !lt.Terminal {
+			state = stateCode(lt.SmState)
+		}
+		roster = append(roster, TaskObs{Id: key, Owner: owner, Active: t.Status == "ACTIVE", State: state})
 	}
 	sort.Slice(roster, func(i, j int) bool { return roster[i].Id < roster[j].Id })
 	ad, _ := c.s.Rpc.GetActiveDetectors(c.ctx, &pb.Empty{})
@@ -600,21 +631,14 @@ func (c *child) projection() (envs []EnvObs, roster []TaskObs, adets []int) {
 }
 
 // settle waits until the asynchronous bookkeeping of the core (status / state updates run in
-// goroutines) has caught up: roster states equal the simulated devices' states and nothing moved
-// for a few milliseconds.
+// goroutines) has caught up: nothing observable moved for a few milliseconds.
 func (c *child) settle() {
 	deadline := time.Now().Add(1500 * time.Millisecond)
 	last := ""
 	stable := 0
 	for time.Now().Before(deadline) {
 		envs, roster, adets := c.projection()
-		live := c.s.LiveTasks()
 		agree := true
-		for _, t := range c.s.Taskman.VerifRoster() {
-			if lt, ok := live[t.TaskId]; ok && !lt.Terminal && t.Status == "ACTIVE" && t.State != "ERROR" && lt.SmState != t.State {
-				agree = false
-			}
-		}
 		b, _ := json.Marshal([]interface{}{envs, roster, adets, len(c.s.CallsSnapshot()), len(c.rec.Events())})
 		cur := string(b)
 		if cur == last && agree {
@@ -634,7 +658,7 @@ func (c *child) observe(rc int, pendAfter int) Obs {
 	c.settle()
 	envs, roster, adets := c.projection()
 	o := Obs{Rc: rc, Envs: envs, Roster: roster, ADets: adets, Pend: pendAfter,
-		Kills: []int{}, Cmds: []int{}, Calls: []int{}, Trigs: []int{}}
+		Kills: []int{}, Cmds: []int{}, Calls: []int{}, Trigs: []int{}, Launch: []int{}}
 	if o.Envs == nil {
 		o.Envs = []EnvObs{}
 	}
@@ -650,6 +674,10 @@ func (c *child) observe(rc int, pendAfter int) Obs {
 		switch r.Type {
 		case "KILL":
 			o.Kills = append(o.Kills, c.keyOfTid(r.Kill))
+		case "ACCEPT":
+			for _, ti := range r.Tasks {
+				o.Launch = append(o.Launch, c.keyOfTid(ti.TaskID.Value))
+			}
 		case "MESSAGE":
 			if r.Msg == nil {
 				continue
@@ -667,6 +695,7 @@ func (c *child) observe(rc int, pendAfter int) Obs {
 	sort.Ints(o.Kills)
 	sort.Ints(o.Cmds)
 	sort.Ints(o.Trigs)
+	sort.Ints(o.Launch)
 	evs := c.rec.Events()
 	for ; c.seenEv < len(evs); c.seenEv++ {
 		ev := evs[c.seenEv]
@@ -713,11 +742,11 @@ func (c *child) setCfgErr(e int, s *Spec, on bool) {
 	c.mu.Lock()
 	for i, r := range s.Roles {
 		if r.Cfg && (r.Kind == KPlain || r.Kind == KHookTask) {
-			k := className(e, i, r.Kind) + "/CONFIGURE"
+			k := className(e, i, r.Kind)
 			if on {
-				c.failCmd[k] = true
+				c.cfgErr[k] = true
 			} else {
-				delete(c.failCmd, k)
+				delete(c.cfgErr, k)
 			}
 		}
 	}
@@ -801,7 +830,11 @@ func (c *child) runOp(o Op) Obs {
 			// the DEPLOY transition has given up
 			time.Sleep(1300 * time.Millisecond)
 		}
-		return c.observe(rcOf(res.err), 0)
+		ob := c.observe(rcOf(res.err), 0)
+		if lostDeploy(o.Spec, res.err) {
+			ob.Note = "lost-deploy"
+		}
+		return ob
 	case "snap":
 		// the creation is started now and held at template-processing time
 		var spec *Spec
@@ -835,7 +868,11 @@ func (c *child) runOp(o Op) Obs {
 		res := <-ch
 		delete(c.pending, o.E)
 		c.setCfgErr(o.E, o.Spec, false)
-		return c.observe(rcOf(res.err), 0)
+		ob := c.observe(rcOf(res.err), 0)
+		if lostDeploy(o.Spec, res.err) {
+			ob.Note = "lost-deploy"
+		}
+		return ob
 	case "control":
 		if o.Fail {
 			if cls, ok := c.failTarget(o.E); ok {
@@ -953,12 +990,12 @@ func runChild(workDir string) {
 	}
 	c := &child{s: s, rec: rec, g: g, ctx: context.Background(), hist: h,
 		specs: map[int]*Spec{}, envIds: map[int]string{}, envIdx: map[string]int{}, envPtr: map[int]*environment.Environment{},
-		byTid: map[string]*launched{}, failCmd: map[string]bool{}, pending: map[int]chan createRes{}}
+		byTid: map[string]*launched{}, failCmd: map[string]bool{}, cfgErr: map[string]bool{}, pending: map[int]chan createRes{}}
 	s.Beh.Launch = c.onLaunch
 	s.Beh.Command = func(taskId, cls, event string) simcore.CmdOutcome {
 		c.mu.Lock()
 		defer c.mu.Unlock()
-		if c.failCmd[cls+"/"+event] {
+		if c.failCmd[cls+"/"+event] || (event == "CONFIGURE" && c.cfgErr[cls]) {
 			return simcore.CmdErrSource
 		}
 		return simcore.CmdAck
@@ -977,33 +1014,43 @@ func runChild(workDir string) {
 		}
 	}
 	res := Result{}
-	done := make(chan struct{})
 	var rmu sync.Mutex
-	go func() {
-		for _, o := range h.Ops {
-			ob := c.runOp(o)
+	finish := func() {
+		rmu.Lock()
+		json.NewEncoder(os.Stdout).Encode(res)
+		rmu.Unlock()
+		os.Exit(0)
+	}
+	for i, o := range h.Ops {
+		opDone := make(chan Obs, 1)
+		go func() { opDone <- c.runOp(o) }()
+		select {
+		case ob := <-opDone:
 			rmu.Lock()
+			if ob.Note == "lost-deploy" {
+				if res.Fail == nil {
+					res.Fail = map[int]int{}
+				}
+				res.Fail[i] = 5
+			}
 			res.Obs = append(res.Obs, ob)
 			rmu.Unlock()
+		case <-time.After(15 * time.Second):
+			// the request did not return (e.g. TeardownEnvironment waiting for a release
+			// acknowledgement that was dropped, KillTasks waiting for a kill acknowledgement)
+			rmu.Lock()
+			res.Hung = true
+			res.Err = fmt.Sprintf("request %d (%s) did not return within 15s", i, o.K)
+			rmu.Unlock()
+			finish()
 		}
-		close(done)
-	}()
-	select {
-	case <-done:
-	case <-time.After(45 * time.Second):
-		rmu.Lock()
-		res.Hung = true
-		rmu.Unlock()
 	}
-	rmu.Lock()
-	json.NewEncoder(os.Stdout).Encode(res)
-	rmu.Unlock()
-	os.Exit(0)
+	finish()
 }
 
 // ---------------------------------------------------------------- parent
 
-func runHistory(h History, slot int, prop string) Result {
+func runHistory(h History, slot int, prop string, idx int) Result {
 	build := os.Getenv("VERIF_BUILD")
 	if build == "" {
 		build = "/verif/build"
@@ -1023,6 +1070,10 @@ func runHistory(h History, slot int, prop string) Result {
 	go func() { done <- cmd.Wait() }()
 	select {
 	case err := <-done:
+		if d := os.Getenv("H04_KEEPLOG"); d != "" {
+			os.MkdirAll(d, 0o755)
+			os.WriteFile(filepath.Join(d, fmt.Sprintf("child_%04d.log", idx)), errb.Bytes(), 0o644)
+		}
 		var r Result
 		// the result is the last line of stdout (the core may print before it)
 		lines := strings.Split(strings.TrimSpace(out.String()), "\n")
@@ -1074,6 +1125,9 @@ func main() {
 		hists, kinds = generate(o, *prop)
 	}
 	results := make([]Result, len(hists))
+	var rmu sync.Mutex
+	retries := 0
+	var hangs []string
 	var wg sync.WaitGroup
 	sem := make(chan int, *workers)
 	for i := 0; i < *workers; i++ {
@@ -1085,7 +1139,18 @@ func main() {
 		slot := <-sem
 		go func(i, slot int) {
 			defer wg.Done()
-			results[i] = runHistory(hists[i], slot, *prop)
+			for try := 0; try < 3; try++ {
+				results[i] = runHistory(hists[i], slot, *prop, i)
+				if !results[i].Hung && results[i].Err == "" {
+					break
+				}
+				rmu.Lock()
+				retries++
+				if results[i].Hung {
+					hangs = append(hangs, fmt.Sprintf("history %d try %d: %s", i, try, results[i].Err))
+				}
+				rmu.Unlock()
+			}
 			sem <- slot
 		}(i, slot)
 	}
@@ -1104,7 +1169,7 @@ func main() {
 		}
 		cases = append(cases, gen.Case{Term: caseTerm(h, r), Kind: kinds[i], Input: h, Obs: r})
 	}
-	extra := map[string]any{"child_failures": failed, "hung": hung, "harness_wall_s": time.Since(t0).Seconds(),
+	extra := map[string]any{"child_failures": failed, "hung": hung, "retries": retries, "hangs_retried": hangs, "harness_wall_s": time.Since(t0).Seconds(),
 		"ops_total": func() int {
 			n := 0
 			for _, h := range hists {
@@ -1116,7 +1181,7 @@ func main() {
 	if *prop == "C06" {
 		report = "report06"
 	}
-	if err := gen.WriteCases(o, *prop, "From Verif Require Import Ownership Teardown OwnMon.", "hcase", report, cases, extra); err != nil {
+	if err := gen.WriteCases(o, *prop, "From Verif Require Import Common Ownership Teardown OwnMon.", "hcase", report, cases, extra); err != nil {
 		fmt.Fprintln(os.Stderr, err)
 		os.Exit(2)
 	}
